@@ -347,6 +347,7 @@ func normMessageArgs(c *ssa.CallCommon, p *Path) {
 	case f.Name() == "AcquireInsert" && len(p.Args) == off+1:
 		p.Args[off] = dots
 	case (pkg == "github.com/pkg/errors" || pkg == "errors") && (f.Name() == "Errorf" || f.Name() == "New"):
+		p.Name = "errors.Errorf" // one spelling for "a fresh error with a message"
 		p.Args = []*Path{dots}
 	case pkg == "github.com/pkg/errors" && (f.Name() == "Wrap" || f.Name() == "Wrapf" || f.Name() == "WithMessage" || f.Name() == "WithMessagef") && len(p.Args) >= 1:
 		p.Args = []*Path{p.Args[0], dots}
@@ -377,6 +378,7 @@ func normMessageArgs(c *ssa.CallCommon, p *Path) {
 		if wrapped != nil {
 			p.Args = []*Path{{Kind: "const", Name: "%w"}, wrapped}
 		} else {
+			p.Name = "errors.Errorf"
 			p.Args = []*Path{dots}
 		}
 	}
